@@ -622,7 +622,7 @@ def note_conc_groups(tags=None, tier="quick"):
         for shape in shapes:
             for tf in ((0, 1) if ak != 2 else (0,)):
                 for site in range(0, nsites):
-                    gs.append(Group(name=f"note.conc.{nm}.s{shape}t{tf}p{site}", srcs=S, entry="h_conc", no_dfcc=True, kind="bounded", timeout=900, unwind=(14 if tier == "thorough" else 8),
+                    gs.append(Group(name=f"note.conc.{nm}.s{shape}t{tf}p{site}", srcs=S, entry="h_conc", no_dfcc=True, kind="bounded", timeout=(3600 if tier == "thorough" else 900), unwind=(14 if tier == "thorough" else 8),
                                     defines=["VP_SEQUENTIAL", "VP_REAL_SEM", f"VP_AKIND={ak}", f"VP_SHAPE={shape}", f"VP_TF={tf}", f"VP_SITE={site}"] +
                                             ([f"VP_SITE2_MAX={nsites - 1}"] if tier == "thorough" else []), object_bits=12, tags=tags,
                                     bound=f"family {'grandparent -> ' if shape & 1 else ''}P -> n{' -> child' if shape & 2 else ''} built by the real nsync_note_new; thread A runs "
